@@ -4,6 +4,7 @@ package concurrent
 // Specify the max number of goroutines running at the same time.
 func Foreach[E any](concurrencyLimit int, collection []E, f func(E)) {
 	sem := make(chan bool, concurrencyLimit)
+	collection, f = verifSchedule(collection, f) // verification hook, no-op without the `verif` build tag
 	for _, element := range collection {
 		sem <- true
 		go func(element E) {
